@@ -4,7 +4,9 @@ package oracle
 import (
 	"bytes"
 	"fmt"
+	"go/ast"
 	"go/importer"
+	"go/parser"
 	"go/token"
 	"go/types"
 	"io"
@@ -76,9 +78,53 @@ func lookup(path string) (io.ReadCloser, error) {
 	return os.Open(f)
 }
 
-// NewImporter returns a fresh export-data importer (own package cache, own FileSet).
+var (
+	srcMu   sync.Mutex
+	srcPkgs = map[string]string{} // synthetic packages: import path -> Go source (single file)
+)
+
+// RegisterSource makes a synthetic package importable (by importers created afterwards and before).
+func RegisterSource(path, src string) {
+	srcMu.Lock()
+	srcPkgs[path] = src
+	srcMu.Unlock()
+}
+
+// srcImporter serves registered synthetic packages (type-checked from source, once per importer
+// instance) in front of the export-data importer.
+type srcImporter struct {
+	base  types.Importer
+	fset  *token.FileSet
+	cache map[string]*types.Package
+}
+
+func (s *srcImporter) Import(path string) (*types.Package, error) {
+	if p, ok := s.cache[path]; ok {
+		return p, nil
+	}
+	srcMu.Lock()
+	src, ok := srcPkgs[path]
+	srcMu.Unlock()
+	if !ok {
+		return s.base.Import(path)
+	}
+	f, err := parser.ParseFile(s.fset, path+"/src.go", src, 0)
+	if err != nil {
+		return nil, err
+	}
+	conf := types.Config{Importer: s}
+	pkg, err := conf.Check(path, s.fset, []*ast.File{f}, nil)
+	if err != nil {
+		return nil, err
+	}
+	s.cache[path] = pkg
+	return pkg, nil
+}
+
+// NewImporter returns a fresh importer (own package cache, own FileSet).
 func NewImporter() types.Importer {
-	return importer.ForCompiler(token.NewFileSet(), "gc", lookup)
+	fset := token.NewFileSet()
+	return &srcImporter{base: importer.ForCompiler(fset, "gc", lookup), fset: fset, cache: map[string]*types.Package{}}
 }
 
 var (
